@@ -111,6 +111,7 @@ var c13BadServices = []string{
 	`{"id":"bad/id","rules":["||bad-slash.c13.example^"]}`,
 	`{"id":"` + strings.Repeat("s", 300) + `","rules":["||bad-long.c13.example^"]}`,
 	`{"id":"svç","rules":["||bad-rune.c13.example^"]}`,
+	`null`,
 }
 
 // c13RuleIndex returns the text of the rule-list index of version ver.  kind
@@ -500,10 +501,10 @@ func c13Start(dir string, urls func(list string) *url.URL, timeout time.Duration
 	p = &c13Proc{s: s, hp: hp, errs: errs}
 	ctx, cancel := context.WithTimeout(context.Background(), 30*time.Second)
 	defer cancel()
-	if err = hp.RefreshInitial(ctx); err != nil {
+	if err = c13NoPanic(func() error { return hp.RefreshInitial(ctx) }); err != nil {
 		return p, fmt.Errorf("hashprefix initial refresh: %w", err)
 	}
-	if err = s.RefreshInitial(ctx); err != nil {
+	if err = c13NoPanic(func() error { return s.RefreshInitial(ctx) }); err != nil {
 		return p, fmt.Errorf("storage initial refresh: %w", err)
 	}
 	return p, nil
@@ -513,9 +514,20 @@ func c13Start(dir string, urls func(list string) *url.URL, timeout time.Duration
 func (p *c13Proc) round() (serr, herr error) {
 	ctx, cancel := context.WithTimeout(context.Background(), 60*time.Second)
 	defer cancel()
-	serr = p.s.Refresh(ctx)
-	herr = p.hp.Refresh(ctx)
+	serr = c13NoPanic(func() error { return p.s.Refresh(ctx) })
+	herr = c13NoPanic(func() error { return p.hp.Refresh(ctx) })
 	return serr, herr
+}
+
+// c13NoPanic turns a panic of the code under test into an error (in
+// production it would take the process down; for the round it is a failure).
+func c13NoPanic(f func() error) (err error) {
+	defer func() {
+		if r := recover(); r != nil {
+			err = fmt.Errorf("PANIC: %v", r)
+		}
+	}()
+	return f()
 }
 
 var c13FltConf = &filter.ConfigClient{
@@ -780,6 +792,9 @@ func c13RunBeh(t *testing.T, out *vhOut, nw *c13Net, rng *rand.Rand, id int, b c
 				"storage_err": fmt.Sprint(serr), "hp_err": fmt.Sprint(herr), "errors": c13ClipAll(errs)})
 			emitProbe((reached["rl1"] || reached["rl2"]) && !staleIV, map[string]any{"stale_iv": staleIV})
 		case "Crash":
+			if p == nil {
+				continue // already down (a start failed)
+			}
 			// the process vanishes: nothing of it is used any more
 			p = nil
 			disk, dd := c13Disk(dir, nw.known)
@@ -801,6 +816,7 @@ func c13RunBeh(t *testing.T, out *vhOut, nw *c13Net, rng *rand.Rand, id int, b c
 				served[l] = 0
 			}
 			if serr == nil {
+				p.errs.take()
 				served, ev["odd_served"] = c13Probe(t, p, ver["ridx"]+1)
 			} else {
 				p = nil
@@ -833,6 +849,23 @@ func c13ClipAll(errs []string) []string {
 	return r
 }
 
+// c13Directed returns the systematic part: after a fault-free round, every
+// fault kind at every list position with all other lists fault-free, followed
+// by a process drop and a restart without network.
+func c13Directed() (behs []c13Beh) {
+	for _, l := range c13Lists {
+		for _, f := range c13FaultsOf(l)[1:] {
+			fs := c13AllOK()
+			fs[l] = f
+			behs = append(behs, c13Beh{Absent: []string{}, Steps: []c13Step{
+				{A: "Round", Faults: c13AllOK()}, {A: "Round", Faults: fs}, {A: "Crash"}, {A: "Restart", Up: false},
+				{A: "Round", Faults: c13AllOK()},
+			}})
+		}
+	}
+	return behs
+}
+
 // TestVerifC13Stepper replays TLC-generated behaviours ($VERIF_IN) and seeded
 // random fault sequences.
 func TestVerifC13Stepper(t *testing.T) {
@@ -841,6 +874,7 @@ func TestVerifC13Stepper(t *testing.T) {
 	if p := os.Getenv("VERIF_IN"); p != "" {
 		vhReadJSON(t, p, &behs)
 	}
+	behs = append(behs, c13Directed()...)
 	rng := rand.New(rand.NewSource(vhSeed()))
 	for i, n := 0, vhEnvInt("VERIF_NRANDOM", 10); i < n; i++ {
 		rounds := 2 + rng.Intn(2)
